@@ -4,7 +4,7 @@ From BV Require Import Base.Prelude Model.Block Model.ForkDB Model.Forkable Mode
   Model.Burst Model.Hub Model.CursorResolver Model.Joining
   Spec.Consumer Spec.Universe Check.Burst_Check Check.C07_Check Spec.C06_Spec Spec.C07_Spec Spec.C09_Spec Spec.C13_Spec
   Spec.C07_Compose_Spec Spec.C07_Shapes_Spec Spec.C07_More_Spec Spec.C13_More_Spec
-  Proofs.C07_Shapes Proofs.C13_More Properties.C07_Compose Properties.C07_More.
+  Proofs.C07_Shapes Proofs.C13_More Proofs.C07_FiltersTarget Properties.C07_Compose Properties.C07_More.
 Local Open Scope N_scope.
 
 (* every filter, stop block, mode, world, schedule: the three shapes of the raw sequence of a run and what the handler
@@ -22,6 +22,12 @@ Print Assumptions c13_run_over_raw.
 Theorem c13_stop_over_raw : C13_stop_over_raw.
 Proof. exact c13_stop_over_raw_proof. Qed.
 Print Assumptions c13_stop_over_raw.
+
+(* the stop clause at stream level in target-cursor mode: a run that ends with stop-block-reached holds canon from the start
+   point up to block S itself (target cursor not beyond the stop block; no agreement hypothesis) *)
+Theorem c13_stop_target : C13_stop_target.
+Proof. exact c13_stop_target_proof. Qed.
+Print Assumptions c13_stop_target.
 
 (* ---- non-vacuity: the runs of Properties/C07_More.v end with stop-block-reached in number, cursor and target-cursor mode *)
 Example c13_more_nonvacuous :
